@@ -22,7 +22,7 @@ func (h *hmac) resetTo(key []byte) {
 	if len(key) > blocksize {
 		// If key is too big, hash it.
 		h.outer.Write(key) //nolint:errcheck,gosec
-		key = h.outer.Sum(nil)
+		key = h.outer.Sum(h.opad[:0])
 	}
 	copy(h.ipad, key)
 	copy(h.opad, key)
